@@ -6,6 +6,7 @@ package sftp
 
 import (
 	"bytes"
+	"errors"
 	"fmt"
 	"io"
 	"math/rand/v2"
@@ -16,7 +17,7 @@ import (
 func init() {
 	vfRegister(&vfProp{
 		id:        "C11",
-		classes:   []string{"os", "os-alloc", "rs", "rs-alloc", "rs-park", "rs-noclose"},
+		classes:   []string{"os", "os-alloc", "rs", "rs-alloc", "rs-park", "rs-noclose", "rs-closeerr"},
 		gen:       c11Gen,
 		exec:      c11Exec,
 		enumerate: c11Enumerate,
@@ -66,7 +67,7 @@ func c11Program(rng *rand.Rand) []vfOp {
 			open = append(open, slot)
 			slot++
 		case x < 30 && len(open) < 12:
-			ops = append(ops, vfOp{K: "opendir", P: []string{"d", "nx", "."}[rng.IntN(3)], H: slot})
+			ops = append(ops, vfOp{K: "opendir", P: []string{"d", "nx", ".", "f0", "d/a"}[rng.IntN(5)], H: slot})
 			open = append(open, slot)
 			dirslot[slot] = true
 			slot++
@@ -119,6 +120,12 @@ func c11Base(class string, seed uint64) *vfScenario {
 	case "rs-noclose":
 		sc.Cfg["kind"] = 1
 		sc.Cfg["noterr"] = 1
+	case "rs-closeerr":
+		// some handler objects fail in Close(): the handle must die all the same, and be closed once
+		sc.Cfg["kind"] = 1
+		for i := 0; i < 1+rng.IntN(3); i++ {
+			sc.Faults = append(sc.Faults, vfFault{K: "closeerr", At: int64(rng.IntN(6))})
+		}
 	}
 	if sc.Cfg["kind"] == 1 {
 		sc.Cfg["hopt"] = int64([]int{0, 1, 1 | 128, 8}[rng.IntN(4)])
@@ -222,6 +229,13 @@ func c11Exec(r *vfRun) {
 			cutAt, cutKind = int(f.At), int(f.A)
 			s.srv.c2s.cutAt = cutAt
 			s.srv.c2s.cutErr = []error{io.EOF, io.ErrUnexpectedEOF, vfErrLinkReset}[cutKind%3]
+		}
+	}
+	closeErrs := false
+	for _, f := range sc.Faults {
+		if f.K == "closeerr" && s.fs != nil {
+			s.fs.planFault("Close", int(f.At), errors.New("close failed: quota exceeded"))
+			closeErrs = true
 		}
 	}
 	repliesAtSend := map[int]int{}
@@ -358,7 +372,7 @@ func c11Exec(r *vfRun) {
 			sim.count("probe.dead_handle_used")
 		case "open":
 			if op.K == "close" {
-				if !ok {
+				if !ok && !closeErrs {
 					r.fail("C11/close-failed", "close", "CLOSE of a live handle was answered %v", p)
 					return
 				}
